@@ -147,3 +147,22 @@ class CallGraph:
                     seen.add(y)
                     st.append(y)
         return seen
+
+
+_PATH = re.compile(r"[A-Za-z_][A-Za-z0-9_]*(?:::[A-Za-z_][A-Za-z0-9_]*)+")
+
+
+def short(name):
+    """Module-independent form of a normalised pretty path: lowercase module segments are dropped
+    (`mpd_protocol::response::ResponseBuilder::parse` -> `ResponseBuilder::parse`,
+    `mpd_protocol::connection::read_to_buffer` -> `read_to_buffer`), also inside `<T as Trait>`."""
+    if name is None:
+        return None
+
+    def one(m):
+        segs = m.group(0).split("::")
+        for i, sg in enumerate(segs):
+            if sg[0].isupper():
+                return "::".join(segs[i:])
+        return segs[-1]
+    return _PATH.sub(one, name)
